@@ -213,3 +213,21 @@ def _named_run(params, values):
 
 HARNESSES["named"] = Harness("named", _named_free, _named_run, prepare=_prepare,
                              functions=("rules_inline.entity", "common.entities", "RendererHTML"))
+
+
+def thorough_extra(seed):
+    jobs = []
+    for ctx in ("emphasis", "link-text", "image-alt", "link-title", "heading", "table-cell"):
+        _sharded(jobs, "escape", {"cfg": JS, "ctx": ctx, "k": 2}, weight=12)
+    for ctx in CONTEXTS:
+        if ctx not in ("table-cell", "table-body", "strike"):
+            jobs.append({"harness": "escape", "params": {"cfg": CM, "ctx": ctx, "k": 1}, "weight": 4})
+        for ref, alpha in NUM_REFS:
+            if ctx not in ("paragraph", "image-alt", "link-title", "link-text") or (ref, alpha) in NUM_REFS[8:]:
+                jobs.append({"harness": "reference", "params": {"cfg": JS, "ctx": ctx, "ref": ref, "digit_alphabet": alpha}, "weight": 2})
+        if ctx not in ("paragraph", "image-alt"):
+            jobs.append({"harness": "named", "params": {"cfg": JS, "ctx": ctx}, "weight": 2})
+    for j in jobs:
+        j["cpu_cap"] = 3000
+        j["wall_cap"] = 4000
+    return jobs
